@@ -351,6 +351,14 @@ func checkC13(c *fw.Ctx) {
 				nChecked++
 			case strings.Contains(sx, "ParseAuthorization("):
 				bad = sx
+			default:
+				// the result of a helper that parses a header itself (and never goes through the
+				// reconstructed request)
+				pa := fw.IsResultOf(fw.NameIs("gmsl/fclient.ParseAuthorization"), -1)
+				viaRead := fw.IsResultOf(fw.NameIs("gmsl/fclient.readHTTPRequest"), -1)
+				if fw.Derives3In(x, di.Fr, fw.FlowSpec{IsSource: pa, All: true}) == fw.Yes && !fw.DerivesFromIn(x, di.Fr, fw.FlowSpec{IsSource: viaRead}) {
+					bad = sx + " (which parses an Authorization header itself)"
+				}
 			}
 		}
 		switch {
